@@ -70,6 +70,9 @@ def execute(prop, case, choices=None, sstr="replay", keep_log=False):
     res = prop.run(case, sim)
     res.setdefault("violations", [])
     res.setdefault("probes", {})
+    for k, v in sim.probes.items():
+        if k not in res["probes"]:
+            res["probes"][k] = v
     res["digest"] = sim.log.digest()
     res["choices"] = list(ch.choices)
     res["steps"] = sim.steps
